@@ -586,6 +586,10 @@ def long_cycle_case(ctx, mon, n, broken_at=None):
     except RecursionError:
         ctx.violation("constructor-recursion-error", {"symbols": n}, case)
         return
+    except Exception as err:
+        ctx.violation("constructor-raised-something-else", {"type": type(err).__name__, "msg": str(err)[-200:],
+                                                            "symbols": n}, case)
+        return
     finally:
         # (the search is quadratic in the length of such a chain: reported on its own, without a bound)
         ctx.maxi("max_lines_of_cycle_search_in_a_long_chain", mon.ctor_lines)
